@@ -533,6 +533,14 @@ def rule_RC(ctx, tier):
             rr.fail("receipt-without-store", "add_appointment can return a signed receipt on a path that stored nothing", where=a.line_of(bb))
     if not okret:
         rr.fail("no-ok-return", "add_appointment has no Ok return", where=a.span)
+    # "stored" means written: every path through Watcher::store_appointment writes the version it was given
+    sa = P.require(W + "store_appointment")
+    writes = sites(sa, "teos::dbm::DBM::store_appointment") + sites(sa, "teos::dbm::DBM::update_appointment")
+    from .rulekit import always_reaches
+    if writes and always_reaches(sa, [0], writes) and all(arg_origin(ctx, sa, x, 1) == ("param", sa.id, 2) and arg_origin(ctx, sa, x, 2) == ("param", sa.id, 3) for x in writes):
+        rr.ok("store_appointment writes (uuid, appointment) to the DB on every path", sample={"rule": "RC", "store_appointment": "insert | update on every path, with its own arguments"})
+    else:
+        rr.fail("store-may-skip-write", "`Watcher::store_appointment` can return without writing the appointment it was given (insert or update) — the receipt then binds a version the tower does not hold", where=sa.span)
     # the stored value and the receipt come from the same ExtendedAppointment
     ea = sites(a, "teos::extended_appointment::ExtendedAppointment::new")
     rn = sites(a, "teos_common::receipts::AppointmentReceipt::new")
